@@ -62,6 +62,22 @@ func genScope(out *Output, rng *Rng) {
 	for _, cc := range loadCorpus().Certs {
 		emit(cc.Cert, map[string]interface{}{"file": cc.File})
 	}
+	// parsed certificates of the zoo: extensions present but empty, every EKU pair, policies, e-mail names ...
+	for _, zc := range certZoo() {
+		c := zc.Cert
+		emit(c, map[string]interface{}{"file": zc.File, "der": hexs(zc.DER)})
+		// direct: the documented TLS scope - no extended key usage listed at all, or serverAuth, or anyExtendedKeyUsage
+		want := len(c.ExtKeyUsage) == 0 && len(c.UnknownExtKeyUsage) == 0
+		for _, e := range c.ExtKeyUsage {
+			if e == x509.ExtKeyUsageServerAuth || e == x509.ExtKeyUsageAny {
+				want = true
+			}
+		}
+		if got := util.IsServerAuthCert(c); got != want {
+			out.Violate("C04|tls-scope:"+zc.Class, fmt.Sprintf("%s lists EKUs %v (+%d unknown) and is treated as in TLS scope = %v", zc.File, c.ExtKeyUsage, len(c.UnknownExtKeyUsage), got),
+				map[string]interface{}{"file": zc.File, "der": hexs(zc.DER)}, want, got)
+		}
+	}
 	ekuSets := [][]x509.ExtKeyUsage{nil, {x509.ExtKeyUsageAny}, {x509.ExtKeyUsageServerAuth}, {x509.ExtKeyUsageClientAuth},
 		{x509.ExtKeyUsageEmailProtection}, {x509.ExtKeyUsageCodeSigning}, {x509.ExtKeyUsageClientAuth, x509.ExtKeyUsageEmailProtection},
 		{x509.ExtKeyUsageOcspSigning, x509.ExtKeyUsageServerAuth}, {x509.ExtKeyUsageTimeStamping}}
